@@ -147,6 +147,11 @@ pub fn run_crash(case: &Case) -> RunOutput {
     });
     let (h, checkpoints, ops, error) = match recorded {
         Ok(x) => x,
+        Err(crate::rt::SimStop::MainPanicked(message)) => {
+            crate::scen::main_panicked("C04", &message, &mut out);
+            let _ = std::fs::remove_dir_all(&dir);
+            return out;
+        }
         Err(stop) => {
             out.harness_error = Some(format!("recorded run stopped: {stop:?}"));
             let _ = std::fs::remove_dir_all(&dir);
